@@ -348,9 +348,9 @@ class ProtocolContext:
         except TimeoutError as err:  # incl. fut.cancel()
             msg = f"{self}: Expired global timer after {timeout} sec"
             _LOGGER.warning(
-                "TOUT.. = %s: send_timeout=%s (%s)", self, timeout, self._cmd is cmd
+                "TOUT.. = %s: send_timeout=%s (%s)", self, timeout, self._fut is fut
             )
-            if self._cmd is cmd:  # NOTE: # this cmd may not yet be self._cmd
+            if self._cmd is cmd and self._fut is fut:  # NOTE: may not (yet) be in flight
                 self.set_state(
                     IsInIdle, expired=True
                 )  # set_exception() will cause InvalidStateError
